@@ -97,7 +97,7 @@ def topologies(tier):
     }
     if tier == "thorough":
         T["4vms-chain"] = ({"vm1": {"b1": ("10.1.0.1", m16), "b2": ("172.17.0.1", m24)}, "vm2": {"b1": ("10.1.0.2", m16), "b2": ("172.18.0.1", m24)},
-                            "vm3": {"b1": ("10.2.0.3", m16), "b2": ("172.18.0.3", m24)}, "vm4": {"b1": ("10.2.0.4", m16), "b2": ("172.19.0.4", m28)}}, "100-101")
+                            "vm3": {"b1": ("10.2.0.3", m16), "b2": ("172.18.0.3", m24)}, "vm4": {"b1": ("10.2.0.4", m16), "b2": ("172.19.0.4", m28)}}, None)
     out = {}
     for name, (cfg, rng) in T.items():
         ranges = {}
@@ -107,7 +107,7 @@ def topologies(tier):
                 if rng is not None:
                     ranges[str(netw)] = rng
                 else:
-                    ranges[str(netw)] = "2-2" if netw.prefixlen == 30 else "100-102"
+                    ranges[str(netw)] = "2-2" if netw.prefixlen == 30 else ("5-7" if netw.prefixlen >= 28 else "100-102")
         out[name] = (cfg, ranges)
     return out
 
